@@ -211,6 +211,25 @@ def generate(rng, tier):
             continue
         for k in range(len(enc)):
             yield "amf0 dect %d %s %s" % (k, hexs(enc), show_all(vs, True))
+    # --- declared lengths / counts far larger than the data present (memory must follow the input, not the claim) ---
+    for cnt in (0, 1, 2, 1000, 1000000, 0x7FFFFFFF, 0xFFFFFFFF):
+        c4 = struct.pack(">I", cnt).hex()
+        for tail in ("", "05", "0505", "0a%s05" % c4, "0101"):
+            yield "amf0 decm 0a%s%s" % (c4, tail)
+            yield "amf0 decm 08%s00016105%s" % (c4, "000009" if tail else "")
+            yield "amf0 decm 0300016b0a%s%s" % (c4, tail)
+    for ln in (0, 1, 2, 65535):
+        yield "amf0 decm 02%04x" % ln + "61" * min(ln, 3)
+        yield "amf0 decm 03%04x" % ln + "61" * min(ln, 3)
+    for i in range(40 if tier == "quick" else 2000):
+        vs = [rand_value(rng, rng.below(4), True) for _ in range(rng.range(1, 3))]
+        enc = bytearray(b"".join(ref_enc(v) for v in vs))
+        # blow up one count / length field
+        for j in range(len(enc)):
+            if enc[j] in (0x0a, 0x08) and j + 4 < len(enc) and rng.chance(1, 2):
+                enc[j + 1:j + 5] = struct.pack(">I", rng.choice([0xFFFFFFFF, 1000000, 0x80000000]))
+                break
+        yield "amf0 decm " + hexs(bytes(enc))
     # --- malformed stream: random bytes and mutated valid encodings ---
     n_bad = 800 if tier == "quick" else 30000
     for i in range(n_bad):
@@ -233,7 +252,7 @@ def nontrivial(case):
 
 
 def distribution(lines):
-    d = {"enc": 0, "decx": 0, "dec": 0, "dect": 0, "with_object": 0, "with_array": 0, "huge_string": 0,
+    d = {"enc": 0, "decx": 0, "dec": 0, "dect": 0, "decm": 0, "with_object": 0, "with_array": 0, "huge_string": 0,
          "nan_or_special_number": 0, "empty_name": 0}
     for l in lines:
         t = l.split()
